@@ -35,7 +35,6 @@ Definition ev_eqb_q (m : p2event) (o : oevent) : bool :=
       bytes_eqb a a' && Bool.eqb c c' && bytes_eqb x x' && (b =? b') && bytes_eqb r r' && goval_eqb (GMap ctx) ctx'
   | ERespond i c x b s k, ORespond i' c' x' b' s' k' =>
       (i =? i') && Bool.eqb c c' && bytes_eqb x x' && (b =? b') && (s =? s')%N && (k =? k')%N
-  | EPanic, OPanic => true
   | _, _ => false
   end.
 
